@@ -278,11 +278,13 @@ static void part1(void) {
 		if (!vh_mine(idx++)) continue;
 		if (vh_time_up()) return;
 		unsigned nv = 1; for (int i = 0; i < __builtin_popcount(mask); i++) nv *= 3;
-		for (unsigned vc = 0; vc < nv; vc++) for (int ci = 0; ci < 6; ci++) for (int pf = 0; pf < 2; pf++) {
+		/* foreign prefixes: none, a few bytes, and a page or more (offset arithmetic on page boundaries, seed R7-C12); the large ones on every 8th table */
+		static const size_t PFX[6] = { 0, 13, 4096, 4097, 8192 + 13, 65536 };
+		for (unsigned vc = 0; vc < nv; vc++) for (int ci = 0; ci < 6; ci++) for (int pf = 0; pf < ((mask + vc) % 8 == 0 ? 6 : 2); pf++) {
 			tkv e[3]; size_t n = 0; unsigned v = vc; static const size_t VS[3] = { 0, 1, 600 };
 			for (int i = 0; i < 9; i++) if (mask >> i & 1) { e[n].k = TBL_K9[i].b; e[n].kl = TBL_K9[i].n; e[n].vl = VS[v % 3]; e[n].v = tbl_val(i + 1, e[n].vl); v /= 3; n++; }
-			tcfg cfg = { 0 }; cfg.comp = comps[ci]; cfg.block_size = 1024; cfg.restart = 2; cfg.prefix = pf ? 13 : 0;
-			fcase fc = { 0 }; fc.kind = 100 + ci; fc.region = mask; fc.nbits = 1; fc.bit[0] = vc * 2 + pf;
+			tcfg cfg = { 0 }; cfg.comp = comps[ci]; cfg.block_size = 1024; cfg.restart = 2; cfg.prefix = PFX[pf];
+			fcase fc = { 0 }; fc.kind = 100 + ci; fc.region = mask; fc.nbits = 1; fc.bit[0] = vc * 6 + pf;
 			vh_case_begin(render, &fc);
 			int fd = tbl_write(&cfg, e, n, NULL);
 			char path[64]; snprintf(path, sizeof path, "/proc/self/fd/%d", fd);
@@ -290,7 +292,7 @@ static void part1(void) {
 			int lowfd1 = dup(0); close(lowfd1);
 			bool vok = verify_file(path);
 			syscall(SYS_close_range, (unsigned) lowfd1, ~0U, 0);
-			if (!vok || g_said_ok != 1) vh_violation("intact-rejected", "mtbl_verify does not report an intact writer-produced file as OK (comp %d, mask %u, values %u, prefix %d)", comps[ci], mask, vc, pf ? 13 : 0);
+			if (!vok || g_said_ok != 1) vh_violation("intact-rejected", "mtbl_verify does not report an intact writer-produced file as OK (comp %d, mask %u, values %u, prefix %zu)", comps[ci], mask, vc, PFX[pf]);
 			struct mtbl_reader_options *ro = mtbl_reader_options_init(); mtbl_reader_options_set_verify_checksums(ro, true);
 			struct mtbl_reader *r = mtbl_reader_init_fd(fd, ro); mtbl_reader_options_destroy(&ro);
 			if (!r) vh_violation("intact-rejected", "verify_checksums reader refuses an intact file");
@@ -319,7 +321,7 @@ int main(int argc, char **argv) {
 		if (!c.is_burst && c.nbits == 0) seed_must_verify(&SD, c.kind); else check_damaged(&c);
 		return vh_finish();
 	}
-	if (!strcmp(mode, "intact")) { part1(); if (vh_shard == 0) vh_sample("every K9 subset of size<=3 x value sizes {0,1,600}^n x 6 compression types x prefix {0,13}: mtbl_verify says OK and a verify_checksums reader drains it"); return vh_finish(); }
+	if (!strcmp(mode, "intact")) { part1(); if (vh_shard == 0) vh_sample("every K9 subset of size<=3 x value sizes {0,1,600}^n x 6 compression types x prefix {0,13} (every 8th table also 4096, 4097, 8205, 65536): mtbl_verify says OK and a verify_checksums reader drains it"); return vh_finish(); }
 	/* damage: mode = "damage <kind>" */
 	int k_lo = atoi(vh_arg(1, "0")), k_hi = vh_argc > 2 ? atoi(vh_arg(2, "0")) : k_lo;
 	g_maxtriple_bits = vh_thorough ? 700 : 260;
